@@ -210,6 +210,20 @@ LOOP_WRAPS = ["clock_gettime", "syscall", "pipe", "timerfd_create", "timerfd_set
               "epoll_pwait2", "epoll_wait", "ppoll", "poll"]
 
 
+MT_WRAPS = ["clock_gettime", "syscall", "timerfd_create", "timerfd_settime", "epoll_ctl", "read", "write",
+            "epoll_pwait2", "epoll_wait", "ppoll", "poll", "pthread_mutex_lock", "pthread_mutex_unlock", "pthread_mutex_destroy",
+            "pthread_spin_lock", "pthread_spin_unlock", "pthread_spin_trylock", "pthread_create", "pthread_join", "pthread_detach",
+            "pthread_sigmask", "sigaction", "getpid", "fork", "wait4", "kill"]
+MT_SOURCES = ["mt_h.c", "mt_proc.c"]
+
+
+def build_mt(out=None, extra_sources=(), extra_wraps=()):
+    """the T-sched harness: core + process/signal extension (+ property-specific extensions)"""
+    out = out or os.path.join(BUILD, "mt_h")
+    srcs = [os.path.join(VERIF, "harness", s) for s in MT_SOURCES] + list(extra_sources)
+    return build_wrapped(out, srcs, MT_WRAPS + list(extra_wraps))
+
+
 def build_wrapped(out, harness_src, wraps, flags=None, tag="asan", extra=()):
     """library objects from REPO, partially linked with --wrap so only library references are redirected, + harness"""
     flags = list(SAN if flags is None else flags)
@@ -223,7 +237,8 @@ def build_wrapped(out, harness_src, wraps, flags=None, tag="asan", extra=()):
             r = sh(["ld", "-r"] + [f"--wrap={w}" for w in wraps] + ["-o", wl] + objs)
             if r.returncode != 0:
                 return False, r.stdout
-    r = sh(["gcc"] + flags + CFLAGS_COMMON + list(extra) + ["-o", out, harness_src, wl, "-lpthread"])
+    srcs = [harness_src] if isinstance(harness_src, str) else list(harness_src)
+    r = sh(["gcc"] + flags + CFLAGS_COMMON + [f"-I{VERIF}/harness"] + list(extra) + ["-o", out] + srcs + [wl, "-lpthread"])
     return r.returncode == 0, r.stdout
 
 
